@@ -650,6 +650,58 @@ def check_factories(ctx, rep):
         raise AnalysisError(f"only {n} json_factory/from_json pairs found")
 
 
+# ---------------------------------------------------------------------------
+# C13.G — the type registry is written at import time only;  C13.U — an update made through one holder reaches every holder
+# ---------------------------------------------------------------------------
+def check_type_registry(ctx, rep):
+    """A short type name in a specification ("Normal", "Distribution") is resolved through REGISTERED_CLASSES, which the @register_class decorators fill while the package is
+    imported.  If anything writes that table while specifications are being loaded (a call of register_class inside a function, a direct store), what a short name denotes
+    depends on what was loaded before: the same specification then builds different objects (or drops nested definitions a foreign class does not know) depending on history."""
+    n = 0
+    for mname, m in sorted(ctx.prog.modules.items()):
+        for c in ast.walk(m.tree):
+            if isinstance(c, ast.Call) and ((isinstance(c.func, ast.Name) and c.func.id == 'register_class') or (isinstance(c.func, ast.Attribute) and c.func.attr == 'register_class')):
+                fn = getattr(c, '_parent', None)
+                while fn is not None and not isinstance(fn, (ast.FunctionDef, ast.AsyncFunctionDef)):
+                    fn = getattr(fn, '_parent', None)
+                n += 1
+                rep.check('C13.G', f"{mname.replace('torchtree.', '')}::register_class-call#{c.lineno}", fn is None, where(m, c), {'inside': fn.name if fn is not None else None},
+                          f"{fn.name if fn is not None else ''}() calls register_class at run time: the short-name table is changed while specifications are loaded, so the class a short "
+                          f"type name denotes (and which nested definitions get built and registered) depends on what was loaded earlier in the same process")
+            if isinstance(c, (ast.Assign, ast.AugAssign, ast.Delete)):
+                tg = c.targets if isinstance(c, (ast.Assign, ast.Delete)) else [c.target]
+                for t in tg:
+                    if isinstance(t, ast.Subscript) and isinstance(t.value, ast.Name) and t.value.id == 'REGISTERED_CLASSES':
+                        fn = getattr(c, '_parent', None)
+                        while fn is not None and not isinstance(fn, ast.FunctionDef):
+                            fn = getattr(fn, '_parent', None)
+                        n += 1
+                        rep.check('C13.G', f"{mname.replace('torchtree.', '')}::registry-store#{c.lineno}", fn is not None and fn.name == 'register_class', where(m, c),
+                                  {'inside': fn.name if fn is not None else None}, "REGISTERED_CLASSES is written outside register_class")
+    decorated = sum(1 for ci in ctx.classes.classes.values() for d in ci.node.decorator_list if (dotted_name(d) or '').split('.')[-1] == 'register_class')
+    rep.ok('C13.G', 'registry::filled-by-decorators', '', {'decorated_classes': decorated, 'other_writers_examined': n})
+    if decorated < 80:
+        rep.incomplete('C13.G', 'registry::decorated-classes', '', f"only {decorated} classes registered by decorator")
+
+
+def check_updates_reach_every_holder(ctx, rep):
+    """"an update made through one holder is observed by every other holder": holders of a shared parameter are notified by the parameter they hold.  The setter of every
+    parameter class that writes *into another parameter* (views, concatenations, transformed parameters) ends in a notification of that underlying parameter (C11.W), and a
+    dirty flag shared by several caches of a tree model is cleared only where all of them are refreshed (C11.S)."""
+    from props import c11
+    from sa.report import RuleProxy
+    n = 0
+    for cls in sorted(ctx.classes.subclasses('torchtree.core.abstractparameter.AbstractParameter'), key=lambda c: c.qualname):
+        c11.check_setters(ctx, RuleProxy(rep, 'C13.U', 'setters::'), cls)
+        n += 1
+    # an in-place write into the tensor of the *underlying* parameter is followed by that parameter's own notification (its holders listen to it, not to the view)
+    c11.check_inplace(ctx, RuleProxy(rep, 'C13.U', 'in-place::'), rule='C11.W', only=lambda m, fn: m.name == 'torchtree.core.parameter')
+    tree_base = ctx.classes.get('torchtree.evolution.tree_model.TimeTreeModel')
+    c11.check_shared_flags(ctx, RuleProxy(rep, 'C13.U', 'flags::'), only=lambda c: c is tree_base or c.has_base(tree_base.qualname))
+    if n < 5:
+        rep.incomplete('C13.U', '*', '', f"only {n} parameter classes examined")
+
+
 def run(ctx, rep):
     rep.explanation = (
         "Registry protocol of process_object decided on its CFG (duplicate test dominates construction; registration "
@@ -678,3 +730,7 @@ def run(ctx, rep):
     # a from_json must not change a registered (possibly already shared) object behind the back of its other holders
     from props import c11
     c11.check_inplace(ctx, rep, rule='C13.W', only=lambda m, fn: fn.name in ('from_json', '_from_json', 'from_json_safe'))
+    rep.rule('C13.G', "the short-name type registry is written by the @register_class decorators at import time only (no run-time registration, no other store)")
+    rep.rule('C13.U', "an update made through one holder reaches every holder: setters of parameters that write into another parameter notify that parameter; shared dirty flags of tree models")
+    check_type_registry(ctx, rep)
+    check_updates_reach_every_holder(ctx, rep)
